@@ -68,6 +68,9 @@ DenseMatrix spe_embedding(RandomAccessIterator begin, RandomAccessIterator end, 
     Indices indices(N);
     for (int i = 0; i < N; ++i)
         indices[i] = i;
+    // The permutation reshuffled in every iteration; `indices` is its working copy, because the
+    // local strategy overwrites the second set of indices with neighbors of the first set
+    Indices permutation(indices);
     // Vector with distances in the original space of the points to update
     DenseVector Rt(nupdates);
     DenseVector scale(nupdates);
@@ -83,7 +86,8 @@ DenseMatrix spe_embedding(RandomAccessIterator begin, RandomAccessIterator end, 
     for (IndexType i = 0; i < max_iter; ++i)
     {
         // Shuffle to select the vectors to update in this iteration
-        tapkee::random_shuffle(indices.begin(), indices.end());
+        tapkee::random_shuffle(permutation.begin(), permutation.end());
+        indices = permutation;
 
         ind1 = indices.begin();
         ind2 = indices.begin() + nupdates;
@@ -106,7 +110,7 @@ DenseMatrix spe_embedding(RandomAccessIterator begin, RandomAccessIterator end, 
             // Generate pseudo-random indices and select final indices
             for (int j = 0; j < nupdates; ++j)
             {
-                IndexType r = static_cast<IndexType>(floor(tapkee::uniform_random() * (k - 1)) + k * j);
+                IndexType r = static_cast<IndexType>(floor(tapkee::uniform_random() * k) + k * j);
                 indices[nupdates + j] = ind1Neighbors[r];
             }
         }
